@@ -40,17 +40,18 @@ def main():
             s = s.replace(m["find2"], m["replace2"])
         open(p, "w").write(s)
         t0 = time.time()
-        cmd = [os.path.join(ROOT, "check"), m["property"], "--repo", sc, "--no-witness", "--tier", m.get("tier", "quick")]
+        cmd = [os.path.join(ROOT, "check"), m["property"], "--repo", sc, "--tier", m.get("tier", "quick")]
+        if not m.get("witness"): cmd.append("--no-witness")   # `witness = true`: the decision itself needs the witness search
         for u in m.get("units", []): cmd += ["--unit", u]
         r = subprocess.run(cmd, capture_output=True, text=True, env=dict(os.environ, **m.get("env", {})))
         hit = [l for l in r.stdout.split("\n") if l.startswith("VIOLATION")]
         if m["expect"] == "HARMLESS":   # an equivalent change: the check must stay quiet
-            ok = r.returncode == 0 and not hit
+            ok = (r.returncode == 0 or (r.returncode == 2 and m.get("allow_undecided"))) and not hit
         else:
             ok = r.returncode == 1 and any(m["expect"] in l for l in hit)
         results.append({"id": m["id"], "ok": ok, "kind": "harmless" if m["expect"] == "HARMLESS" else "breaking", "rc": r.returncode, "undecided": r.returncode == 2,
                         "obligation": (hit[0].split("replay=")[1].split("/")[-1].split(".json")[0] if hit else None)})
-        print(f"MUTANT {m['id']}: {('quiet' if m['expect']=='HARMLESS' else 'killed') if ok else ('FALSE-ALARM' if m['expect']=='HARMLESS' else 'SURVIVED')} rc={r.returncode} {time.time()-t0:.1f}s {' | '.join(hit)[:200]}")
+        print(f"MUTANT {m['id']}: {(('quiet' if r.returncode == 0 else 'undecided (allowed)') if m['expect']=='HARMLESS' else 'killed') if ok else (('UNDECIDED' if r.returncode == 2 else 'FALSE-ALARM') if m['expect']=='HARMLESS' else 'SURVIVED')} rc={r.returncode} {time.time()-t0:.1f}s {' | '.join(hit)[:200]}")
         if not ok:
             bad += 1
             print(r.stdout[-800:], r.stderr[-800:])
